@@ -398,6 +398,13 @@ func doCLI(c *core.Ctx, kind string, n int, rooted bool, seed int64, nb int, toF
 		if rooted {
 			args = append(args, "-r")
 		}
+	case "badout": // the output file cannot be created (its directory does not exist)
+		args = []string{"--seed", strconv.FormatInt(seed, 10), "-n", strconv.Itoa(nb), sizeFlag, strconv.Itoa(n)}
+		if rooted {
+			args = append(args, "-r")
+		}
+		toFile = true
+		in[5] = "1"
 	case "noseed": // seeded from the clock: only the oracle applies
 		args = []string{"-n", strconv.Itoa(nb), sizeFlag, strconv.Itoa(n)}
 		if rooted {
@@ -412,7 +419,10 @@ func doCLI(c *core.Ctx, kind string, n int, rooted bool, seed int64, nb int, toF
 		}
 	}
 	outfile := ""
-	if toFile {
+	if variant == "badout" {
+		outfile = c.TmpFile("") + ".no-such-dir/out.nw"
+		args = append(args, "-o", outfile)
+	} else if toFile {
 		outfile = c.TmpFile("")
 		if variant == "long" {
 			args = append(args, "--output", outfile)
@@ -440,6 +450,11 @@ func doCLI(c *core.Ctx, kind string, n int, rooted bool, seed int64, nb int, toF
 		b, _ := os.ReadFile(outfile)
 		os.Remove(outfile)
 		text = string(b)
+		if variant == "badout" {
+			// nothing may appear anywhere: neither in a file nor on standard output
+			os.Remove(strings.TrimSuffix(outfile, ".no-such-dir/out.nw"))
+			text += r.Stdout
+		}
 	}
 	dumps, bad := parseTrees(text)
 	// the draws of the nb successive calls, from the same seed
@@ -470,9 +485,15 @@ func doCLI(c *core.Ctx, kind string, n int, rooted bool, seed int64, nb int, toF
 // names (library: variadic argument; command: the tips of the tree given with -i).
 func doTopo(c *core.Ctx, n int, rooted bool, via string, names []string) {
 	in := []string{strconv.Itoa(n), b01(rooted), via, core.StrList(names)}
-	if via == "cli" {
+	if strings.HasPrefix(via, "cli") {
 		args := []string{"generate", "topologies", "-l", strconv.Itoa(n)}
-		if len(names) > 0 {
+		if via == "cli-noinput" {
+			// -i names a file that does not exist
+			args = []string{"generate", "topologies", "-l", strconv.Itoa(n), "-i", c.TmpFile("") + ".absent"}
+		} else if via == "cli-badinput" {
+			// -i names a file that is not a tree
+			args = []string{"generate", "topologies", "-l", strconv.Itoa(n), "-i", c.TmpFile("((A,B;\n")}
+		} else if len(names) > 0 {
 			// a star tree carrying the names, in this order
 			file := c.TmpFile("(" + strings.Join(names, ",") + ");\n")
 			args = []string{"generate", "topologies", "-i", file}
@@ -485,7 +506,11 @@ func doTopo(c *core.Ctx, n int, rooted bool, via string, names []string) {
 			args = append(args, "-r")
 		}
 		outfile := ""
-		if n%2 == 1 {
+		if via == "cli-badout" {
+			// the output cannot be opened (its directory does not exist): stdout is what is looked at
+			outfile = c.TmpFile("") + ".no-such-dir/out.nw"
+			args = append(args, "-o", outfile)
+		} else if n%2 == 1 {
 			outfile = c.TmpFile("")
 			args = append(args, "-o", outfile)
 		}
@@ -504,6 +529,9 @@ func doTopo(c *core.Ctx, n int, rooted bool, via string, names []string) {
 		case r.Exit != 0 || strings.Contains(errFlags(r), "E"):
 			// cobra echoes the error message on stdout: unreadable lines are expected here
 			class = "err"
+			if r.Exit == 0 {
+				class = "err:exit0" // reported on stderr, but a calling script sees success
+			}
 			if len(dumps) > 0 {
 				class = "malformed:error-and-output"
 			}
@@ -826,7 +854,7 @@ func execAll(c *core.Ctx, reqs []string) {
 			req += "\t" // no caller-supplied names
 			f = append(f, "")
 		}
-		if f[0] == "C16.cli" || (f[0] == "C16.topo" && len(f) >= 4 && f[3] == "cli") {
+		if f[0] == "C16.cli" || (f[0] == "C16.topo" && len(f) >= 4 && strings.HasPrefix(f[3], "cli")) {
 			Replay(c, []string{req})
 			continue
 		}
@@ -986,7 +1014,7 @@ func Run(c *core.Ctx) {
 	for i := 0; i < nextra; i++ {
 		// StarTreeFromName: 0..7 names, sometimes one twice
 		names := pickNames(c, c.G.Intn(8))
-		if len(names) >= 2 && c.G.Chance(0.15) {
+		if len(names) >= 2 && c.G.Chance(0.3) {
 			names[len(names)-1] = names[0]
 		}
 		reqs = append(reqs, "C16.starn\t"+core.StrList(names))
@@ -999,7 +1027,7 @@ func Run(c *core.Ctx) {
 			o.Singles = 0.2
 		}
 		tn, _ := c.G.Tree(o)
-		if c.G.Chance(0.15) {
+		if c.G.Chance(0.3) {
 			// degenerate shape: the root is itself a tip (one neighbour)
 			tn.E = &core.E{Len: 0.5, Sup: -1, Pval: -1, Id: -1}
 			tn = &core.N{Name: "rt", Kids: []*core.N{tn}}
@@ -1051,6 +1079,13 @@ func Run(c *core.Ctx) {
 				reqs = append(reqs, reqCLI(kind, n, n%2 == 0, 1+newSeed(), 2, false, "twice"))
 				reqs = append(reqs, reqCLI(kind, n, n%2 == 1, 1+newSeed(), 2, n%3 == 0, "noseed"))
 			}
+			// no tree asked for (-n 0, -n -1): the loop body never runs, whatever the size; an output
+			// file that cannot be created: an error before any generator call
+			for _, n := range []int{1, 2, 5} {
+				reqs = append(reqs, reqCLI(kind, n, n%2 == 1, 1+newSeed(), 0, false, "short"))
+				reqs = append(reqs, reqCLI(kind, n, n%2 == 0, 1+newSeed(), -1, n == 5, "eq"))
+				reqs = append(reqs, reqCLI(kind, n+1+n/5, n%2 == 1, 1+newSeed(), 1+n%2, true, "badout")) // sizes 2, 3, 7
+			}
 			// size and number of trees left to their defaults: 10 tips / depth 3, one tree
 			dn := 10
 			if kind == "balanced" {
@@ -1058,7 +1093,12 @@ func Run(c *core.Ctx) {
 			}
 			reqs = append(reqs, reqCLI(kind, dn, false, 1+newSeed(), 1, false, "defaults"))
 			reqs = append(reqs, reqCLI(kind, dn, true, 1+newSeed(), 1, true, "defaults"))
+			reqs = append(reqs, reqCLI(kind, dn, false, 1+newSeed(), 1, true, "defaults"))
+			reqs = append(reqs, reqCLI(kind, dn, true, 1+newSeed(), 1, false, "defaults"))
 		}
+		// the command's own failures: an input that does not exist / is not a tree, an output that cannot be opened
+		reqs = append(reqs, reqTopo(4, false, "cli-noinput"), reqTopo(4, true, "cli-badinput"), reqTopo(4, false, "cli-badout"),
+			reqTopo(3, true, "cli-badout"), reqTopo(1, false, "cli-badout"))
 		for n := 1; n <= c.Scale(5, 6); n++ {
 			reqs = append(reqs, reqTopo(n, false, "cli"), reqTopo(n, true, "cli"))
 			if n >= 2 { // a one-name input tree would be a tree rooted at a tip
